@@ -163,7 +163,7 @@ class CodecModel:
                     ws.add("no-key")
             self.wire[t] = ws
             for w in (0, 1, 2, 5):
-                dpaths = Interp(mod, bindings={N(poparams[1]): w, A(N(poparams[2]), "proto_type"): t}, inline=inl).run(post)
+                dpaths = Interp(mod, bindings={N(poparams[1]): w, A(N(poparams[2]), "proto_type"): t}, inline=inl, fork_ifexp=True).run(post)
                 n += len(dpaths)
                 self.dec[(t, w)] = []
                 for p in dpaths:
